@@ -573,12 +573,16 @@ def tie_check(prop, lean_dir=None):
 
 
 def leanchecker(prop):
-    ok, text = True, ''
-    for mod in prop_modules(prop):
+    """the toolchain's independent re-checker over the compiled property modules and the tie modules serving the property"""
+    mods = list(prop_modules(prop)) + ['TrompModel.Tie.%s' % t for t, v in sorted(TIES.items()) if prop in v['props']]
+
+    def one(mod):
         r = sh(['lake', 'env', 'leanchecker', mod], cwd=LEAN_DIR)
-        ok = ok and r.returncode == 0
-        text += (r.stdout + r.stderr)[-800:]
-    return ok, text
+        return r.returncode == 0, '%s: %s' % (mod, (r.stdout + r.stderr)[-400:])
+    import concurrent.futures as cf
+    with cf.ThreadPoolExecutor(4) as ex:
+        res = list(ex.map(one, mods))
+    return all(o for o, _ in res), '\n'.join(t for o, t in res if not o) or 'ok: %d modules' % len(mods)
 
 
 # ------------------------------------------------------------------------------------------
